@@ -110,6 +110,16 @@ func makeInputs(r *rand.Rand, dir string, ntax int) *cmdInputs {
 	if clade == nil {
 		clade = []string{modelTips(T)[0].Name, modelTips(T)[1].Name, modelTips(T)[2].Name}
 	}
+	// a non-monophyletic outgroup: one tip from each of two different children of the root (plus a third one)
+	var spread []string
+	for _, ch := range T.Root.Children {
+		tn := nodeTipNames(ch)
+		spread = append(spread, tn[r.Intn(len(tn))])
+	}
+	if len(spread) > 3 {
+		spread = spread[:3]
+	}
+	in.files["nonmono.args"] = strings.Join(spread, "\n")
 	in.files["og.txt"] = strings.Join(clade, "\n") + "\n"
 	in.files["og.args"] = strings.Join(clade, "\n")
 	var mp []string
@@ -247,6 +257,8 @@ var cmdTable = []cmdTmpl{
 	{Name: "collapse name", Args: []string{"collapse", "name", "-i", "{t.nw}", "-b", "{brids.txt}", "--id"}},
 	{Name: "reroot midpoint", Args: []string{"reroot", "midpoint", "-i", "{t.nw}"}},
 	{Name: "reroot outgroup", Args: []string{"reroot", "outgroup", "-i", "{t.nw}", "-l", "{og.txt}"}},
+	{Name: "reroot outgroup non-monophyletic", Args: []string{"reroot", "outgroup", "-i", "{t.nw}", "{@nonmono.args}"}},
+	{Name: "reroot outgroup non-monophyletic remove", Args: []string{"reroot", "outgroup", "-i", "{t2.nw}", "-r", "{@nonmono.args}"}},
 	{Name: "unroot", Args: []string{"unroot", "-i", "{tr.nw}"}},
 	{Name: "brlen add", Args: []string{"brlen", "add", "-i", "{t.nw}", "-l", "0.25"}},
 	{Name: "brlen clear", Args: []string{"brlen", "clear", "-i", "{t.nw}"}},
